@@ -222,7 +222,7 @@ Definition ctx_h2f (cx : option ctxremap) (cells : list (str * str)) (k : str) :
    webhook-body-shadowed the last cell wins whatever it holds.  Which of the two the tree does is the
    PROBED constant rekey_blank_keeps (translator/tables_rowfix.py). *)
 Definition rekey_put (acc : list (str * str)) (k v : str) : list (str * str) :=
-  if rekey_blank_keeps && is_nil v && ocontains str_eqb acc k then acc else oset str_eqb acc k v.
+  if rekey_blank_keeps && ocontains str_eqb acc k && is_nil v then acc else oset str_eqb acc k v.
 
 Definition rekey (cx : option ctxremap) (cells : list (str * str)) : res (list (str * str)) :=
   foldM (fun acc kv => do k <- ctx_h2f cx cells (fst kv); Ok (rekey_put acc k (snd kv))) cells [].
